@@ -67,7 +67,7 @@ class C04(Prop):
     id = "C04"
     driver = "Env"
     quick_n = 300
-    thorough_n = 8000
+    thorough_n = 25000
     rule = ("episodes over regular/irregular daily and intraday grids (duplicated and unsorted grid input), a quote per "
             "contract per bar or exactly one contract per bar, extra quotes and custom events placed at / inside / exactly "
             "at / just after the latency bound and anywhere in the bar, events before and after the grid, shuffled "
@@ -76,6 +76,7 @@ class C04(Prop):
             "exactly. Non-trivial = latency > 0 with history replayed, or a date change on a one-event batch, or "
             "duplicated/unsorted grid input, or an event exactly at the latency bound, or markov/warm-up set, or a "
             "second episode on the same environment; distinct = distinct cases")
+    rule = rule + es.CONTEXT_RULE
     nontrivial_tags = {"latency-history", "one-event-date-change", "messy-grid", "at-bound", "markov", "warmup",
                        "second-episode"}
     assumptions = [
